@@ -118,8 +118,10 @@ pub fn run(ctx: &mut Ctx) {
     for i in 0..n + n_limit {
         let limit = i >= n;
         let big = i % 20 == 19 || limit;
-        let max_work = if big { 1024 } else { *ctx.rng.pick(&[8usize, 16, 32, 64, 128]) };
-        let sizes: &[usize] = if max_work > 64 { &[2, 4, 64] } else { &SMALL_SIZES };
+        // every 7th case: few shards of 5 .. 18 blocks each (block loops of the kernels with every remainder)
+        let multi = !limit && !big && i % 7 == 5;
+        let max_work = if big { 1024 } else if multi { *ctx.rng.pick(&[8usize, 16]) } else { *ctx.rng.pick(&[8usize, 16, 32, 64, 128]) };
+        let sizes: &[usize] = if multi { &MULTI_BLOCK_SIZES } else if max_work > 64 { &[2, 4, 64] } else { &SMALL_SIZES };
         let cfg = if limit {
             let small = *ctx.rng.pick(&[1usize, 2, 3, 4, 5, 7, 8]);
             let large = 65536 - npow2(small) - ctx.rng.below(2);
@@ -147,7 +149,7 @@ pub fn run(ctx: &mut Ctx) {
         };
         let high = match cfg.kind.as_str() { "high" => true, "low" => false, _ => rule_is_high(cfg.k, cfg.r) };
         let mut c = Case::new(&format!("encode-{}", i));
-        c.with_model = !big;
+        c.with_model = !big && !multi;
         // "pure function of (k, r, rate, data)": half of the encoders have a history — a round at
         // another configuration, then reset — with the poison hook scrambling the working memory
         if i % 2 == 1 && cfg.kind != "rs" {
